@@ -3,6 +3,9 @@ package main
 import (
 	"fmt"
 	"go/token"
+	"os"
+	"sort"
+	"strings"
 
 	"golang.org/x/tools/go/ssa"
 )
@@ -24,6 +27,7 @@ func init() {
 			{Name: "between-events-any-previous", File: "guidedremediation/internal/vulns/vulns.go", Old: "			} else if idx != 0 && events[idx-1].Introduced != \"\" {", New: "			} else if idx != 0 && events[idx-1].Fixed == \"\" {", Rule: "D4-decision", Site: "IsAffected"},
 			{Name: "idx-guard-dropped", File: "guidedremediation/internal/vulns/vulns.go", Old: "			} else if idx != 0 && events[idx-1].Introduced != \"\" {", New: "			} else if events[idx-1].Introduced != \"\" {", Rule: "D5-bounds", Site: "IsAffected"},
 			{Name: "sort-input-in-place", File: "guidedremediation/internal/vulns/vulns.go", Old: "			events := slices.Clone(r.Events)", New: "			events := r.Events", Rule: "D3-sorted-search", Site: "private-copy"},
+			{Name: "versions-list-only-without-ranges", File: "guidedremediation/internal/vulns/vulns.go", Old: "		if slices.Contains(affected.Versions, pkg.Version) {\n			return true\n		}\n", New: "		if len(affected.Ranges) == 0 && slices.Contains(affected.Versions, pkg.Version) {\n			return true\n		}\n", Rule: "D6-listed", Site: "IsAffected"},
 		},
 	})
 }
@@ -34,6 +38,7 @@ func runC18(p *Prog, r *Report) {
 	r.Rule("D3-sorted-search", "sort and search agree: same slice, same comparison, sentinel \"0\" first")
 	r.Rule("D4-decision", "exact hit: introduced/last_affected; between: previous event is introduced")
 	r.Rule("D5-bounds", "index discipline in IsAffected")
+	r.Rule("D6-listed", "a version listed explicitly for the same package is affected, whatever the ranges say")
 	fn := p.Func("guidedremediation/internal/vulns", "IsAffected")
 	if fn == nil {
 		r.Undecided("D1-same-package", "anchor:vulns.IsAffected", "-", "not found")
@@ -41,6 +46,7 @@ func runC18(p *Prog, r *Report) {
 	}
 	fa := newFA(p, r, fn)
 	pkg := fn.Params[1]
+	c18Listed(p, r, fn)
 	// --- D1
 	ecoEq := func(c ssa.Value) (bool, bool) {
 		op, x, y, ok := cmpNorm(c)
@@ -385,4 +391,91 @@ func idomOf(b *ssa.BasicBlock) *ssa.BasicBlock {
 		return nil
 	}
 	return b.Idom()
+}
+
+// c18Listed: the explicit-versions test slices.Contains(affected.Versions, pkg.Version) exists, its
+// true edge returns true, and it is evaluated under exactly the audited conditions (same package,
+// known ecosystem, inside the loop over affected entries) — in particular not only when no range
+// could be evaluated, and not after the ranges said "not affected".
+var c18ListedGuards = []string{
+	// inside the loop over the advisory's affected entries
+	"(φ:int+1:int) < builtin.len(param0.Affected)",
+	// the package's ecosystem is known
+	"0:deps.dev/util/resolve.System != guidedremediation/internal/util.OSVToDepsDevEcosystem(extractor.Package.Ecosystem(param1))",
+	// same ecosystem, same name
+	"extractor.Package.Ecosystem(param1) == ‹param0.Affected[(φ:int+1:int)]›.Package.Ecosystem",
+	"param1.Name == ‹param0.Affected[(φ:int+1:int)]›.Package.Name",
+}
+
+func c18Listed(p *Prog, r *Report, fn *ssa.Function) {
+	var cc *ssa.Call
+	forEachInstr(fn, func(_ *ssa.BasicBlock, _ int, in ssa.Instruction) {
+		c, ok := in.(*ssa.Call)
+		if !ok || refOf(c.Common()).Pkg != "slices" || !strings.HasPrefix(refOf(c.Common()).Name, "Contains") {
+			return
+		}
+		_, f, _, ok := fieldOf(loadAddr(c.Call.Args[0]))
+		if ok && f == "Versions" {
+			cc = c
+		}
+	})
+	site := "vulns.IsAffected"
+	if cc == nil {
+		r.Fail("D6-listed", site+":test", p.Pos(fn.Pos()), "IsAffected no longer tests the affected entry's explicit version list")
+		return
+	}
+	_, f2, base, ok := fieldOf(loadAddr(cc.Call.Args[1]))
+	r.Check(ok && f2 == "Version" && rootParam(base) == ssa.Value(fn.Params[1]), "D6-listed", site+":operand", p.Pos(cc.Pos()), "the package's own version is looked up", "the explicit version list is searched for something other than the package's version")
+	// true edge returns true
+	okRet := false
+	if ifi := blockIf(cc.Block()); ifi != nil {
+		inner, flip := stripNot(ifi.Cond)
+		if inner == ssa.Value(cc) {
+			k := 0
+			if flip {
+				k = 1
+			}
+			t := cc.Block().Succs[k]
+			if ret, isR := t.Instrs[len(t.Instrs)-1].(*ssa.Return); isR {
+				if b, isB := constBool(retVal(ret, 0)); isB && b {
+					okRet = true
+				}
+			}
+		}
+	}
+	r.Check(okRet, "D6-listed", site+":verdict", p.Pos(cc.Pos()), "listed ⇒ return true", "a version found in the explicit list does not lead straight to a positive verdict")
+	defer func(d int, a bool) { renderDepth, renderAllocs = d, a }(renderDepth, renderAllocs)
+	renderDepth, renderAllocs = 10, true
+	got := controlGuards(cc.Block())
+	sort.Strings(got)
+	if os.Getenv("SCALINT_LEARN") != "" {
+		for _, g := range got {
+			fmt.Fprintf(os.Stderr, "LEARN-GUARD\t%q,\n", g)
+		}
+		return
+	}
+	want := append([]string{}, c18ListedGuards...)
+	sort.Strings(want)
+	r.Check(strings.Join(got, "\n") == strings.Join(want, "\n"), "D6-listed", site+":guards", p.Pos(cc.Pos()), "evaluated for every entry of the same package", fmt.Sprintf("the explicit-versions test is evaluated under other conditions than the audited ones (got %v): e.g. only when no range could be evaluated, so a listed version outside the ranges is judged not affected", got))
+}
+
+// controlGuards: the branch decisions (rendered with polarity) that every path to b has taken:
+// for each dominator ending in an If, the successor through which b is reached when only one is.
+func controlGuards(b *ssa.BasicBlock) []string {
+	var out []string
+	for d := b.Idom(); d != nil; d = d.Idom() {
+		ifi := blockIf(d)
+		if ifi == nil {
+			continue
+		}
+		// a successor that is a back edge (it dominates d) starts another iteration: b is not reached
+		// "through" it in this one
+		r0 := (d.Succs[0] == b || d.Succs[0].Dominates(b)) && !d.Succs[0].Dominates(d)
+		r1 := (d.Succs[1] == b || d.Succs[1].Dominates(b)) && !d.Succs[1].Dominates(d)
+		if r0 == r1 {
+			continue
+		}
+		out = append(out, renderCondV(ifi.Cond, r0))
+	}
+	return out
 }
